@@ -22,6 +22,18 @@ DET = {
  "C17-1": ("C17", "caught after the seeded-wrong-definition guard was ordered after the real obligations (before: the guard itself tripped -> exit 3)"),
  "C17-2": ("C17", "caught after a numeric-witness fallback for `unknown` on a non-cancelling residual"),
  "C28-1": ("C28", "caught after the producer invariant (Total == sum/max of parts) was checked on symbolic run_model output with symbolic n_instances"),
+ "C09-1": ("C09", "caught by the first version"),
+ "C09-2": ("C09", "caught after the mixed-sign polynomial family was added to the formula grammar"),
+ "C11-1": ("C11", "caught after the pre-filled-window instantiation (second block-nested-loop block, >= 16 kept rows) was added"),
+ "C11-2": ("C11", "caught after the solver-generated glue probe (prime-factor columns through the real makepareto glue) was added"),
+ "C21-1": ("C21", "caught after the regex stub offered `search` as well and the prefix-name sweep was added"),
+ "C21-2": ("C21", "caught after the scoping probe used falsy values (0) for the shadowing arch variable"),
+ "C24-1": ("C24", "caught by the first version"),
+ "C24-2": (None, "NOT caught: the change is in the ISL path (`get_tensor_size` on a non-box set); C24 claims the sympy tile-size path only (DESIGN.md C24 'outside')"),
+ "C10-1": ("C10", "caught after lib/astsym learnt int.bit_length, shifts by symbolic amounts and `//=` (before: Unsupported -> exit 3, inconclusive)"),
+ "C10-2": ("C10", "caught after lib/astsym learnt any/all, math.prod, comb, list.count, set de-duplication, `for` over guarded lists, `while` with symbolic trip count and interpreting module-level helpers (_prime_factorization) from their source (before: Unsupported -> exit 3)"),
+ "C07-1": ("C07", "caught after the cache-aliasing obligations were added (sibling expressions requested from the real cached _lambdify_type_check; the returned function's source must compute the requested sibling)"),
+ "C07-2": ("C07", "caught after configurations with integer throughputs that do not divide the action counts and a single latency-bearing component were added (the only way a symengine Rational reaches _to_sp)"),
  "C28-2": ("C28", "caught after derived result sets (drop_components_with_zero_energy_and_latency, drop_zeros) were included with literal-zero cell patterns"),
 }
 REJECT = {"C06-1": "rejected: with the change three baseline tests fail (tests.test_mapper.TestMapperFanoutTwoMatmuls::test_at_glb, ::test_at_glb_with_fanout_node, tests.test_toll.TestToll::test_toll_not_outermost_holder_of_intermediate); the check did catch it after the skeleton family was extended with tensors that are never held in the outermost memory"}
@@ -66,6 +78,7 @@ for seed, c in sorted(conf.items()):
            "confirmed": {"how": f"tools/confirm_seed.sh {pid} {k} {c['mode']} in the scratch worktree", "demo_exit_with_patch": c["demo_with"], "demo_exit_without_patch": c["demo_without"],
                          "tests_run": c["ran"], "baseline_stable_tests_in_scope": c["stable"], "newly_failing": c["newly_failing"],
                          "scope": "the full pinned suite" if c["mode"] == "full" else "fast part (vibe suite, test_model, test_toll, tests/network, viz/plotting/tracegen/isl); the change cannot reach the mapper regression tests"},
-           "detected_by": {"check": f"./check {det[0]} --tier quick (git -C /repo apply patch.diff; run; git -C /repo checkout -- .)", "result": "exit 1 with VIOLATION lines (replayed on the real code)", "note": det[1]}}
+           "detected_by": ({"check": f"./check {det[0]} --tier quick (git -C /repo apply patch.diff; run; git -C /repo checkout -- .)", "result": "exit 1 with VIOLATION lines (replayed on the real code)", "note": det[1]}
+                           if det[0] else {"check": None, "result": "exit 0 (not detected)", "note": det[1]})}
     json.dump(out, open(f"{dst}/meta.json", "w"), indent=1)
     print("stored", seed)
